@@ -113,6 +113,13 @@ fn alphabet() -> Vec<Rr> {
         r("m.z.y.", t::MINFO, c::IN, 1, &[wire::wname("r.z.y."), wire::wname("f.z.y.")].concat()),
         r("m.z.y.", t::HINFO, c::IN, 1, b"\x03cpu\x02os"),
         r("m.z.y.", t::HINFO, c::IN, 1, b"\x03CPU\x02os"), // HINFO compares octet-wise: a second record
+        // empty RDATA (legal for NULL and for types the library does not know)
+        // next to non-empty RDATA, in either order and twice
+        r("n.z.y.", t::NULL, c::IN, 1, b""),
+        r("n.z.y.", t::NULL, c::IN, 1, b"\x00"),
+        r("n.z.y.", t::NULL, c::IN, 1, b"\x01\x02"),
+        r("n.z.y.", 65280, c::IN, 1, b""),
+        r("n.z.y.", 65280, c::IN, 1, b"\x00"),
     ]
 }
 
@@ -138,10 +145,11 @@ fn sub_alphabets() -> Vec<(&'static str, Vec<usize>)> {
         ("RRsets: SOA/NS/A/TXT at the apex and one child, equal-by-case RDATA, TTL conflicts in either order", vec![0, 1, 2, 3, 4, 5, 6, 7, 8, 9, 10, 11, 12, 13, 14, 15, 31]),
         ("mixed: apex SOA/NS plus depth, TTL conflicts below empty non-terminals", vec![0, 2, 3, 4, 6, 8, 10, 16, 17, 18, 19, 20, 21, 24, 33, 36]),
         ("less common types: SRV / MX / MINFO / HINFO records that differ in one fixed field or in name case only", vec![40, 41, 42, 43, 44, 45, 46, 47, 48, 49, 50, 51]),
+        ("empty RDATA next to non-empty RDATA (NULL and an unknown type), every order, with repeats", vec![52, 53, 54, 55, 56, 8]),
     ]
 }
 
-const LOOKUP_TYPES: [u16; 9] = [t::A, t::NS, t::SOA, t::TXT, t::CNAME, t::SRV, t::MX, t::MINFO, t::HINFO];
+const LOOKUP_TYPES: [u16; 11] = [t::A, t::NS, t::SOA, t::TXT, t::CNAME, t::SRV, t::MX, t::MINFO, t::HINFO, t::NULL, 65280];
 
 /// Names looked up around every history, besides the model's nodes.
 fn probe_names(alpha: &[Rr]) -> Vec<WName> {
